@@ -50,13 +50,25 @@ fn cas_increment(ctx: &Ctx, acc: &Accum, target_ops: u64) -> Option<i32> {
     let successes = Arc::new(AtomicU64::new(0));
     let attempts = Arc::new(AtomicU64::new(0));
     let per_thread = target_ops / THREADS as u64;
+    let tokens: Arc<std::sync::Mutex<Vec<u64>>> = Arc::new(std::sync::Mutex::new(vec![]));
     std::thread::scope(|s| {
-        for _ in 0..THREADS {
+        for t in 0..THREADS {
             let stack = stack.clone();
             let successes = successes.clone();
             let attempts = attempts.clone();
+            let tokens = tokens.clone();
             s.spawn(move || {
                 let mut w = Worker::new(&stack);
+                let mut mine: Vec<u64> = vec![];
+                // a third of the threads store to keys of their own the whole time: the CAS source is
+                // shared by all keys, so token uniqueness on the hot key must survive that traffic
+                if t % 3 == 2 {
+                    let key = format!("other{}", t).into_bytes();
+                    for i in 0..per_thread * 2 {
+                        w.exec(&Cmd::set(&key, if i % 2 == 0 { b"x" } else { b"y" }, 0, 0));
+                    }
+                    return;
+                }
                 for _ in 0..per_thread {
                     attempts.fetch_add(1, Ordering::Relaxed);
                     if let Some(r) = w.exec(&Cmd::get(b"n")) {
@@ -69,13 +81,30 @@ fn cas_increment(ctx: &Ctx, acc: &Accum, target_ops: u64) -> Option<i32> {
                         if let Some(r2) = w.exec(&c) {
                             if r2.status == 0 {
                                 successes.fetch_add(1, Ordering::Relaxed);
+                                mine.push(r2.cas);
                             }
                         }
                     }
                 }
+                tokens.lock().unwrap().extend(mine);
             });
         }
     });
+    // every acknowledged store of the hot key carries a token the key never carried before
+    {
+        let mut t = tokens.lock().unwrap().clone();
+        let n = t.len();
+        t.sort();
+        t.dedup();
+        if t.len() != n {
+            return Some(violation(
+                ctx,
+                "cas_token_reissued",
+                format!("{} CAS-stores of one key were acknowledged, but only {} distinct CAS tokens were handed out for them while other keys were being stored to concurrently: a token was issued twice for the same item, so a stale CAS-store can be accepted", n, t.len()),
+                json!({"scenario": "cas_increment", "acknowledged": n, "distinct_tokens": t.len()}),
+            ));
+        }
+    }
     let fin = w0.exec(&Cmd::get(b"n"));
     let v: u64 = fin.as_ref().and_then(|r| std::str::from_utf8(&r.value).ok().and_then(|s| s.parse().ok())).unwrap_or(u64::MAX);
     let succ = successes.load(Ordering::Relaxed);
@@ -579,6 +608,66 @@ fn eviction_bound(ctx: &Ctx, acc: &Accum, rounds: u64) -> Option<i32> {
     None
 }
 
+/// C14: many threads read the same just-expired items at once (racing their lazy collection), then fresh
+/// keys are stored sequentially. The accounting may over-count after expiries (known finding K4) but must
+/// never UNDER-count, or the stored bytes leave the bound.
+fn expiry_concurrent(ctx: &Ctx, acc: &Accum, rounds: u64) -> Option<i32> {
+    let limit = 20_000u64;
+    for round in 0..rounds {
+        let stack = Arc::new(Stack::new(Policy::Random(limit)));
+        let mut w0 = Worker::new(&stack);
+        let n = 40usize;
+        for i in 0..n {
+            w0.exec(&Cmd::set(format!("x{}", i).as_bytes(), &vec![b'x'; 150 + (i * 7 + round as usize) % 100], 0, 1));
+        }
+        stack.timer.add(3);
+        let barrier = Arc::new(Barrier::new(THREADS));
+        std::thread::scope(|s| {
+            for t in 0..THREADS {
+                let (stack, barrier) = (stack.clone(), barrier.clone());
+                s.spawn(move || {
+                    let mut w = Worker::new(&stack);
+                    barrier.wait();
+                    for i in 0..n {
+                        let k = (i + t * 3) % n;
+                        w.exec(&Cmd::get(format!("x{}", k).as_bytes()));
+                    }
+                });
+            }
+        });
+        acc.evaluations.fetch_add((THREADS * n) as u64, Ordering::Relaxed);
+        let stored: usize = (0..n).filter_map(|i| stack.physical_len(format!("x{}", i).as_bytes())).sum();
+        if let Some(u) = stack.usage() {
+            if u < stored as u64 || u >= 1 << 63 {
+                return Some(violation(
+                    ctx,
+                    "accounting_under_counts",
+                    format!("after {} threads read the same {} expired items concurrently, the accounted usage is {} although {} bytes are stored (usage below content lets the store grow past the limit)", THREADS, n, u as i64, stored),
+                    json!({"scenario": "expiry_concurrent", "round": round, "usage": u, "stored": stored}),
+                ));
+            }
+        }
+        // behavioural form: sequential stores of fresh keys afterwards stay within limit + last record
+        let mut total_keys: Vec<Vec<u8>> = vec![];
+        for i in 0..160usize {
+            let key = format!("y{}", i).into_bytes();
+            w0.exec(&Cmd::set(&key, &vec![b'y'; 200], 0, 0));
+            total_keys.push(key);
+            let total: usize = total_keys.iter().filter_map(|k| stack.physical_len(k)).sum::<usize>() + (0..n).filter_map(|i| stack.physical_len(format!("x{}", i).as_bytes())).sum::<usize>();
+            if total as u64 > limit + 224 {
+                return Some(violation(
+                    ctx,
+                    "bound_after_concurrent_expiry",
+                    format!("after concurrent reads of expired items, sequential stores of fresh 224-byte records reach {} stored bytes under a limit of {}", total, limit),
+                    json!({"scenario": "expiry_concurrent", "round": round, "total": total}),
+                ));
+            }
+        }
+    }
+    acc.count("stress_expiry_concurrent_rounds", rounds);
+    None
+}
+
 /// C15: fresh inserts and deletes on disjoint keys from many threads (exact accounting classes
 /// only, far below the limit): at quiescence the accounted usage equals the stored bytes and no
 /// resident item was lost.
@@ -747,7 +836,7 @@ pub fn phase(ctx: &Ctx, acc: &Accum, prop: &str) -> Option<i32> {
         "C04" => rmw(ctx, acc, if q { 2_000 } else { 20_000 }, if q { 200 } else { 3000 }).or_else(|| rmw_over_tcp(ctx, acc, if q { 400 } else { 4000 })),
         "C16" => progress(ctx, acc, if q { 4 } else { 30 }),
         "C15" => accounting_concurrent(ctx, acc, if q { 3000 } else { 60_000 }),
-        "C14" => eviction_bound(ctx, acc, if q { 3 } else { 60 }),
+        "C14" => eviction_bound(ctx, acc, if q { 3 } else { 60 }).or_else(|| expiry_concurrent(ctx, acc, if q { 40 } else { 800 })),
         _ => None,
     };
     acc.inner.lock().unwrap().phases.push(json!({"phase": format!("os-scheduled-stress-{}", prop), "wall_s": t0.elapsed().as_secs_f64(), "threads": THREADS}));
